@@ -33,8 +33,8 @@ ASSUMPTIONS = [
     "builds are atomic per-target steps",
 ]
 
-FAMILIES_QUICK = [("checks", 40, {})]
-FAMILIES_THOROUGH = [("checks", 600, {})]
+FAMILIES_QUICK = [("checks", 30, {}), ("checks", 12, {"minimal": True})]
+FAMILIES_THOROUGH = [("checks", 450, {}), ("checks", 180, {"minimal": True})]
 
 
 def run(ctx):
